@@ -590,7 +590,7 @@ func frameBuffersLocal(p *Prog, r *Report, R string) {
 // by nobody: the connection (and for the websocket listener the HTTP handler goroutine that
 // waits for it) stays for good.
 func additionsTestedAgainstClose(p *Prog, r *Report, R string, filter func(rel string) bool) {
-	r.Describe(R, "a queue of accepted-but-not-yet-delivered connections that the owner's Close sweeps and empties gains an entry only under a test, made in the same critical section as the append, of a flag that this Close sets: an entry queued after the sweep is never closed (the check made before the lock was released and re-taken proves nothing)")
+	r.Describe(R, "a list or table of closeable things (queued connections, connections being negotiated, pipes, contexts) that the owner's Close sweeps gains an entry only under a test, made in the same critical section as the append, of a flag that this Close sets: an entry queued after the sweep is never closed (the check made before the lock was released and re-taken proves nothing)")
 	n := 0
 	for _, fn := range p.Funcs {
 		rel, ok := p.FuncRel(fn)
@@ -598,22 +598,40 @@ func additionsTestedAgainstClose(p *Prog, r *Report, R string, filter func(rel s
 			continue
 		}
 		EachInstr(fn, func(in ssa.Instruction) {
-			st, ok := in.(*ssa.Store)
-			if !ok {
+			var fa *ssa.FieldAddr
+			switch st := in.(type) {
+			case *ssa.Store:
+				f, ok := st.Addr.(*ssa.FieldAddr)
+				if !ok || !elemCloses(st.Val.Type()) {
+					return
+				}
+				if _, isSlice := st.Val.Type().Underlying().(*types.Slice); !isSlice {
+					return
+				}
+				c, isCall := st.Val.(*ssa.Call)
+				if !isCall {
+					return
+				}
+				if b, isB := c.Call.Value.(*ssa.Builtin); !isB || b.Name() != "append" {
+					return
+				}
+				fa = f
+			case *ssa.MapUpdate:
+				// m[conn] = … on a map of closeable things kept in a field
+				ld, ok := st.Map.(*ssa.UnOp)
+				if !ok || !elemCloses(st.Map.Type()) {
+					return
+				}
+				f, ok := ld.X.(*ssa.FieldAddr)
+				if !ok {
+					return
+				}
+				fa = f
+			default:
 				return
 			}
-			fa, ok := st.Addr.(*ssa.FieldAddr)
-			if !ok || !elemCloses(st.Val.Type()) {
-				return
-			}
-			if _, isSlice := st.Val.Type().Underlying().(*types.Slice); !isSlice {
-				return
-			}
-			c, isCall := st.Val.(*ssa.Call)
-			if !isCall {
-				return
-			}
-			if b, isB := c.Call.Value.(*ssa.Builtin); !isB || b.Name() != "append" {
+			// an object under construction (not yet published): nothing can have closed it
+			if _, fresh := fa.X.(*ssa.Alloc); fresh {
 				return
 			}
 			// the sweeping Close of the owner: a method named Close on the same receiver type
@@ -637,6 +655,18 @@ func additionsTestedAgainstClose(p *Prog, r *Report, R string, filter func(rel s
 					}
 					if FieldVar(f2) == fv {
 						if k, isC := s2.Val.(*ssa.Const); isC && k.Value == nil {
+							resets = true
+						}
+					}
+				})
+				// ... or ranges over it (a sweep that closes the entries and leaves them in place)
+				EachInstr(g, func(i2 ssa.Instruction) {
+					rg, ok := i2.(*ssa.Range)
+					if !ok {
+						return
+					}
+					if ld, ok := rg.X.(*ssa.UnOp); ok {
+						if f2, ok := ld.X.(*ssa.FieldAddr); ok && FieldVar(f2) == fv {
 							resets = true
 						}
 					}
